@@ -25,7 +25,7 @@ TcpOk(r) == /\ Len(r.outs) = Len(r.lines)
                ELSE ToSet(r.lines) = TcpLines(r.args, Thorough)   \* exactly the encodings of the specification
             /\ TcpBad(r) = 0
 
-HttpV(r) == IF r.cpl # 1 THEN "request-not-complete" ELSE HttpVerdict(r.u, r.na >= 2, r.p, r.st, r.body)
+HttpV(r) == IF r.cpl # 1 THEN "request-not-complete" ELSE HttpVerdict(r.u, r.na >= 2, r.p, r.na >= 3, r.q, r.st, r.body)
 
 (* ---- tpl: verdicts of all observations of one template *)
 TplVerdicts(r) ==
